@@ -5,6 +5,7 @@ CONSTANTS
   EarlyClose = FALSE
   FlushFirst = TRUE
   Lapse = FALSE
+  ExpiryAware = TRUE
   Emit = FALSE
 INVARIANTS Safety
 VIEW view
